@@ -220,6 +220,31 @@ theorem checker_exact (fs : FS) (cfg : Cfg) (locs : List Dir)
     ((loaded.map (·.1)).Nodup ∧ ∀ n, n ∈ loaded.map (·.1) ↔ Expected fs cfg locs n) :=
   judge_exact_iff fs cfg locs loaded keys dupWarn
 
+/-! ## a source file wins over its compiled form -/
+
+/-- `_from_filename` never imports a `.pyc`/`.pyo` whose `.py` sibling exists (sourceless mode or
+not), and never a `.pyo` whose `.pyc` sibling exists. -/
+theorem compiled_needs_no_source (fs : FS) (cfg : Cfg) (n : Nat) (h : accepts fs cfg n = true) :
+    (endsWith dotPyc (fs.node n).name = true ∨ endsWith dotPyo (fs.node n).name = true) →
+      fs.exists_ (fs.node n).dir (fs.node n).name.dropLast = false ∧
+      (endsWith dotPyo (fs.node n).name = true →
+        fs.exists_ (fs.node n).dir ((fs.node n).name.dropLast ++ ['c']) = false) := by
+  intro hk
+  have hr := accepts_isRevFile fs cfg n h
+  unfold isRevFile at hr
+  simp only [Bool.and_eq_true, Bool.not_eq_true', Bool.or_eq_true] at hr
+  obtain ⟨_, hk'⟩ := hr
+  rcases hk' with (hpy | ⟨⟨_, hpyc⟩, hex⟩) | ⟨⟨⟨_, hpyo⟩, hex⟩, hexc⟩
+  · rcases hk with hc | ho
+    · exact (not_py_and_pyc _ hpy hc).elim
+    · exact (not_py_and_pyo _ hpy ho).elim
+  · exact ⟨hex, fun ho => (not_pyc_and_pyo _ hpyc ho).elim⟩
+  · exact ⟨hex, fun _ => hexc⟩
+
+/-- `load_python_file` loads the source whenever the source exists. -/
+theorem load_prefers_source (cacheExists legacyExists : Bool) :
+    loadPythonFile .py true cacheExists legacyExists = .self := rfl
+
 /-! ## non-vacuity -/
 
 /-- a layout exercising symlink de-duplication, `.py` over `.pyc`, `__init__.py`, a lock file and
